@@ -577,6 +577,10 @@ fn probes(ctx: &Ctx) {
         ("macro/reentered-with-same-arguments/self-behind-define-guard", ".macro once\n.ifndef ONCE_DONE\n#define ONCE_DONE\n once @0\n ldi @0, 3\n.endif\n.endm\n once r18\n once r18\n", " ldi r18, 3\n"),
         ("macro/reentered-with-same-arguments/three-in-a-ring", ".macro ra\n.ifndef RA\n#define RA\n rb 1\n.dw 1\n.endif\n.endm\n.macro rb\n.ifndef RB\n#define RB\n rc 1\n.dw 2\n.endif\n.endm\n.macro rc\n.ifndef RC\n#define RC\n ra\n rb 1\n.dw 3\n.endif\n.endm\n ra\n", ".dw 3\n.dw 2\n.dw 1\n"),
         ("macro/reentered-with-same-arguments/counting-down-by-equ", ".equ depth_limit = 3\n.macro down\n.if @0 > 0\n down @0 - 1\n.endif\n.dw @0\n.endm\n down depth_limit\n down depth_limit\n", ".dw 0\n.dw 1\n.dw 2\n.dw 3\n.dw 0\n.dw 1\n.dw 2\n.dw 3\n"),
+        // a parameter that is only mentioned - in a comment, in a string - is not used: the call need not supply it
+        ("macro/parameter-only-mentioned/in-a-comment", ".macro m\n\tldi r16, @0 ; callers used to pass a mask as @2\n.endm\n\tm 1\n", "\tldi r16, 1\n"),
+        ("macro/parameter-only-mentioned/in-a-comment-no-arguments", ".macro m\n\tnop ; was: ldi r16, @0\n\tnop // and @1\n.endm\n\tm\n", "\tnop\n\tnop\n"),
+        ("macro/parameter-only-mentioned/in-a-block-comment", ".macro m\n\tldi @0, 2 /* @1 is gone */\n.endm\n\tm r17\n", "\tldi r17, 2\n"),
         ("macro/pc-relative-in-repeated-one-line-body", ".macro dly\n rjmp pc+1\n.endm\n dly\n dly\n dly\n", " rjmp pc+1\n rjmp pc+1\n rjmp pc+1\n"),
         ("macro/body-starting-with-eseg", ".macro ee\n.eseg\n.db 1,2,3\n.dw 0x1234\n.cseg\n.endm\n nop\n ee\n nop\n", " nop\n.eseg\n.db 1,2,3\n.dw 0x1234\n.cseg\n nop\n"),
         ("macro/body-starting-with-eseg-called-first", ".macro ee\n.eseg\n.db 1,2,3\n.cseg\n.endm\n ee\n nop\n", ".eseg\n.db 1,2,3\n.cseg\n nop\n"),
